@@ -151,13 +151,30 @@ def fixup(case):
                 break
         if not ok:
             del c["buf"]
+    if "rbuf" in c:
+        # small mock response buffer: keep it only while no handler Send can block on it
+        rbuf, inflight, ok = c["rbuf"], 0, True
+        for o in ops:
+            if o["s"] == "h" and o["a"] == "send":
+                if o.get("nw") or inflight >= rbuf:
+                    ok = False
+                    break
+                inflight += 1
+            elif o["s"] == "c" and o["a"] == "recv":
+                if o.get("nw"):
+                    ok = False
+                    break
+                if inflight > 0:
+                    inflight -= 1
+        if not ok:
+            del c["rbuf"]
     return c
 
 
 # --------------------------------------------------------------------------- generator
 def gen_script(rng, tier):
-    style = rng.choices(["echo", "burst", "mixed", "closefirst", "early_ret", "misuse", "free", "big", "fullbuf"],
-                        [18, 12, 25, 10, 12, 12, 8, 3, 2.5])[0]
+    style = rng.choices(["echo", "burst", "mixed", "closefirst", "early_ret", "misuse", "free", "big", "fullbuf", "fullres"],
+                        [18, 12, 25, 10, 12, 12, 8, 3, 2.5, 2.5])[0]
     ops = []
     pid = [0, 0]
 
@@ -329,6 +346,27 @@ def gen_script(rng, tier):
         for o in ops:
             o.setdefault("d", 0)
         return {"ops": ops, "style": style, "buf": buf}
+    elif style == "fullres":
+        # mock only: the response channel has a small capacity; the client closes its sending side first, the
+        # handler fills the response channel exactly and returns while the client has not received anything
+        # (late client); only then the client drains: it must get every response, then the terminal result, twice.
+        rbuf = rng.choice([0, 1, 2, 2, 3, 10])
+        if rbuf > 0:
+            for _ in range(rng.choice([0, 0, 1, 2])):
+                csend(); hrecv(); hsend(); crecv()
+        if rng.random() < 0.3:
+            csend(); hrecv()
+        cclose()
+        if rng.random() < 0.6:
+            hrecv()
+        for _ in range(rbuf):
+            hsend()
+        ret(d=rng.choice([10, 20, 30]))
+        for _ in range(rbuf + rng.randrange(1, 4)):
+            crecv()
+        if rng.random() < 0.3:
+            csend()
+        return {"ops": ops, "style": style, "rbuf": rbuf}
     elif style == "big":
         for _ in range(rng.randrange(1, 3)):
             csend(big=True); hrecv(); hsend(big=True); crecv()
@@ -373,7 +411,7 @@ def gen_cases(rng, tier, n):
             continue
         # the same script on several transports (always mock + one or two others)
         ts = ["mock"] + rng.sample(TRANSPORTS[1:], rng.choice([1, 2, 2, 4]))
-        if "buf" in sc:
+        if "buf" in sc or "rbuf" in sc:
             ts = ["mock"]
         for t in ts:
             c = json.loads(json.dumps(sc))
@@ -399,6 +437,10 @@ def _pay(p, z, v=0, bad=False):
 def _rsl(ob, table):
     k = ob["k"]
     if k == "ok":
+        return "ROk"
+    if k == "blocked":
+        # a Receive that did not return before the watchdog: no result the model allows (ROk is never a legal
+        # result of Receive), rejected by accepts and by ok_C14's definite-end clauses
         return "ROk"
     if k == "val":
         return "(RVal %s)" % _pay(ob.get("p", 0), ob.get("z", 0), ob.get("v", 0), ob.get("bad", False))
@@ -429,14 +471,29 @@ def harness_violation(case, r):
         return "panic: " + r["panic"][:600]
     if r.get("open"):
         return "stream could not be opened: " + r["open"][:300]
+    cops, hops = split_sides(case)
     if r.get("hang"):
+        if _blocked_receive(case, r):
+            return None     # a Receive that never returned is an observation: the model / monitor judge it
         return "a call did not return within the watchdog (no definite end): client got %d results, handler %d" % (
             len(r.get("c", [])), len(r.get("h", [])))
-    cops, hops = split_sides(case)
     if len(r.get("c", [])) != len(cops) or len(r.get("h", [])) + 1 != len(hops):
         return "harness recorded %d/%d client and %d/%d handler results" % (
             len(r.get("c", [])), len(cops), len(r.get("h", [])), len(hops) - 1)
     return None
+
+
+def _blocked_receive(case, r):
+    """the watchdog fired while a side was inside Receive (and no side was stuck in another call)"""
+    cops, hops = split_sides(case)
+    hops = [o for o in hops if o["a"] != "ret"]
+    found = False
+    for ops_, obs_ in ((cops, r.get("c", [])), (hops, r.get("h", []))):
+        if obs_ and obs_[-1]["k"] == "blocked":
+            if len(obs_) > len(ops_) or ops_[len(obs_) - 1]["a"] != "recv":
+                return False
+            found = True
+    return found
 
 
 SKIPPED = []   # cases whose client saw a raw transport error (socket torn down after a stall)
@@ -473,7 +530,10 @@ def to_coq(case, r):
     hobs = list(r["h"])
     for o in hops:
         if o["a"] == "ret":
-            hl.append("HRet %s" % rete)
+            if r.get("hret", True):
+                hl.append("HRet %s" % rete)
+            break
+        if not hobs:
             break
         ob = hobs.pop(0)
         if o["a"] == "send":
@@ -502,6 +562,8 @@ def histogram(case, r):
     ks = ["t=" + case["t"], "style=" + case.get("style", "?")]
     if "buf" in case:
         ks.append("mock_request_buffer=%d" % case["buf"])
+    if "rbuf" in case:
+        ks.append("mock_response_buffer=%d" % case["rbuf"])
     cops, hops = split_sides(case)
     ret = [o for o in hops if o["a"] == "ret"][0]
     ks.append("ret_kind=%d" % ret.get("e", 0))
@@ -591,7 +653,8 @@ def model_dump(case, r):
 
 RULE = ("scripts of client Send/CloseSend/Receive and handler Receive/Send/return(err) in 8 styles (echo, burst, mixed, "
         "close-first, early return with racing sends, API misuse after close/terminal, free-running, 64 KiB/1 MiB payloads, "
-        "mock request buffer filled exactly before CloseSend); payloads carry a map, an omit-when-empty text and slice in 5 "
+        "mock request buffer filled exactly before CloseSend, mock response buffer filled exactly before the handler "
+        "returns to a late client after CloseSend; a Receive that never returns is fed to the monitor as an illegal result); payloads carry a map, an omit-when-empty text and slice in 5 "
         "shapes (received payloads are compared in full at receipt and again after the stream), "
         "each run on the mock transport and on 1-4 of websocket/json, websocket/msgpack, grpc, grpc(Internal); handler "
         "results over nil + 17 error kinds x 6 message variants (incl. the wire separator). Non-trivial = at least one "
